@@ -63,6 +63,10 @@ STALL_REQS = [
 ]
 
 
+# what getpeername() reports: an IPv4 pair, an IPv6 4-tuple (also with a zone), or nothing (peer already gone)
+PEERNAMES = [("192.0.2.7", 40001), ("2001:db8::7", 40001, 0, 0), ("fe80::1%eth0", 40001, 0, 3), None]
+
+
 def l1_stall(ctx, data, label, i, uploads, with_mw, cuts=()):
     from nauyaca.server import protocol as P
 
@@ -72,7 +76,7 @@ def l1_stall(ctx, data, label, i, uploads, with_mw, cuts=()):
         h = SpyHandler({"mode": "sync", "outcome": "value", "status": 20, "meta": "text/gemini", "body": "ok\n"}, log, loop)
         mw = SpyMiddleware({"outcome": "allow"}, log, loop) if with_mw else None
         up = SpyUpload({"outcome": "value", "status": 20, "meta": "text/gemini", "body": "stored\n"}, log, loop) if uploads else None
-        sim = ServerSim(lambda: P.GeminiServerProtocol(h, mw, up), loop=loop, log=log)
+        sim = ServerSim(lambda: P.GeminiServerProtocol(h, mw, up), peername=PEERNAMES[(i + len(cuts)) % len(PEERNAMES)], loop=loop, log=log)
         sim.start()
         if i:
             prev = 0
@@ -168,7 +172,7 @@ def run_l1_slow(ctx):
                         h = SpyHandler({"mode": "async", "delay": hd, "outcome": "value", "status": 20, "meta": "text/gemini", "body": "slow ok\n"}, log, loop)
                         mw = SpyMiddleware({"outcome": "allow", "delay": mwd}, log, loop) if mwd is not None else None
                         up = SpyUpload({"delay": hd, "outcome": "value", "status": 20, "meta": "text/gemini", "body": "slow stored\n"}, log, loop)
-                        sim = ServerSim(lambda: P.GeminiServerProtocol(h, mw, up), loop=loop, log=log)
+                        sim = ServerSim(lambda: P.GeminiServerProtocol(h, mw, up), peername=PEERNAMES[int(hd + (mwd or 0) + arrive) % len(PEERNAMES)], loop=loop, log=log)
                         sim.start()
                         if arrive:
                             sim.advance(arrive)
@@ -246,7 +250,8 @@ def l2_case(ctx, backend, tls_max, client_cert, stall_flight, stall_off, request
     try:
         h = SpyHandler({"mode": "sync", "outcome": "value", "status": 20, "meta": "text/gemini", "body": "ok\n"}, log, loop)
         ident = certs.identity("c15-client", "ec") if client_cert else None
-        bench = tlsbench.Sandwich(loop, lambda: GeminiServerProtocol(h), backend=backend, log=log, client_identity=ident, tls_max=tls_max)
+        bench = tlsbench.Sandwich(loop, lambda: GeminiServerProtocol(h), backend=backend, log=log, client_identity=ident, tls_max=tls_max,
+                                  peername=PEERNAMES[(len(backend) + (0 if tls_max is None else 1) + (1 if ident else 0)) % 3])
         flights = []
         flight = 0
         done = False
@@ -315,7 +320,8 @@ def l2_coalesced(ctx, backend, tls_max, client_cert, request, variant):
     try:
         h = SpyHandler({"mode": "sync", "outcome": "value", "status": 20, "meta": "text/gemini", "body": "ok\n"}, log, loop)
         ident = certs.identity("c15-client", "ec") if client_cert else None
-        bench = tlsbench.Sandwich(loop, lambda: GeminiServerProtocol(h), backend=backend, log=log, client_identity=ident, tls_max=tls_max)
+        bench = tlsbench.Sandwich(loop, lambda: GeminiServerProtocol(h), backend=backend, log=log, client_identity=ident, tls_max=tls_max,
+                                  peername=PEERNAMES[(len(backend) + (0 if tls_max is None else 1) + (1 if ident else 0)) % 3])
         pieces = request if variant == "coalesced" else [request[:9], request[9:]]
         if not bench.handshake(coalesce_with=pieces):
             return {"error": str(bench.error)}
